@@ -206,14 +206,16 @@ impl Ty {
         }
     }
 
-    /// The alignment unit used for padding (`MaxSizeOf::max_size_of`), as the pinned build
-    /// computes it (it defines what is on disk).
+    /// The alignment unit used for padding (`MaxSizeOf::max_size_of`): what the pinned build
+    /// computes wherever that is a valid unit (it defines what is on disk); zero-sized leaves
+    /// have unit 1 and ranges round their size up to a power of two (the pinned build returned
+    /// 0 resp. the raw size there: findings F4 and F14, repaired).
     pub fn unit(&self) -> usize {
         match self {
             Ty::Prim(p) => p.size(),
-            Ty::Unit | Ty::Phantom(_) | Ty::RangeFull => 0,
+            Ty::Unit | Ty::Phantom(_) | Ty::RangeFull => 1,
             Ty::Array(t, _) | Ty::Tuple(t, _) => t.unit(),
-            Ty::Range(..) => self.layout().0,
+            Ty::Range(..) => { let (s, a) = self.layout(); s.next_power_of_two().max(a) }
             Ty::Adt(adt) => {
                 let mut m = self.layout().1;
                 for v in &adt.variants { for f in &v.fields { m = m.max(f.ty.unit()); } }
